@@ -26,6 +26,7 @@ Require Import Ctpg.Proofs.CapFormulaTree.
 Require Import Ctpg.Proofs.CapFormulaCex.
 Require Import Ctpg.Model.Containers.
 Require Import Ctpg.Proofs.ContainersVec.
+Require Import Ctpg.Proofs.CapFormulaRec.
 From Coq Require Import Permutation.
 
 (* stdex::cvector<T,N> (array + size, the word-level mirror of Model/Containers.v tied to the real template by kernel-checked observations): for EVERY sequence of push_back / pop_back / clear / erase operations its contents are those of the list specification bounded by N - a push beyond the capacity changes nothing *)
@@ -57,6 +58,36 @@ Theorem C12_cqueue_overflow_is_loud_exactly_when_full :
   forall (A : Type) (q : cqueue A) (x : A), cq_wf q -> cq_push q x = Throw <-> length (cq_abs q) = N.to_nat (cq_cap q).
 Proof. exact @cq_push_throws_iff_full. Qed.
 Print Assumptions C12_cqueue_overflow_is_loud_exactly_when_full.
+
+(* THE PRECISE FORM OF THE cstring_buffer CAPACITY (explains D16): for a grammar without empty rules, any table, any input, with or without error recovery, the stack never holds more than bytes + 1 + (number of error-symbol shifts performed so far) entries - an error-symbol shift is the only step that pushes without consuming a byte *)
+Theorem C12_stack_height_is_bounded_by_bytes_plus_error_shifts :
+  forall (V C : Type) (g : grammar) (tbl : LRGen.table) (opts : options) (buf : list nat) (lexer : bool -> spoint -> list nat -> list lex_event * option (nat * nat)) (term_f : nat -> nat -> nat -> spoint -> V) (err_f : spoint -> V) (rule_f : nat -> C -> list V -> C * V), empty_rules g = 0 -> DriverBasics.eof_err_not_shifted g tbl -> lexer_in_range lexer -> forall (fuel : nat) (c : C), (let '(_, sf, _, v) := DriverBasics.run_gh V C g tbl opts buf None lexer term_f err_f rule_f fuel (init c) [] [] in bounded_from V C g tbl opts buf lexer 0 (v ++ [sf])) /\ never_above V C g tbl opts buf lexer term_f err_f rule_f (length buf + 1 + err_shifts V C g tbl opts buf lexer term_f err_f rule_f fuel c) fuel c.
+Proof. exact @height_le_bytes_plus_error_shifts_without_empty_rules. Qed.
+Print Assumptions C12_stack_height_is_bounded_by_bytes_plus_error_shifts.
+
+(* hence the library's capacity N + EmptyRulesCount + 1 = bytes + 2 has exactly one spare slot: every run that shifts the error symbol at most once equals the unbounded run and never throws (the height may EQUAL the capacity, so this needed its own lockstep argument) *)
+Theorem C12_cstring_capacity_suffices_with_at_most_one_recovery :
+  forall (V C : Type) (g : grammar) (tbl : LRGen.table) (opts : options) (buf : list nat) (lexer : bool -> spoint -> list nat -> list lex_event * option (nat * nat)) (term_f : nat -> nat -> nat -> spoint -> V) (err_f : spoint -> V) (rule_f : nat -> C -> list V -> C * V) (fuel : nat) (c : C), empty_rules g = 0 -> DriverBasics.eof_err_not_shifted g tbl -> lexer_in_range lexer -> err_shifts V C g tbl opts buf lexer term_f err_f rule_f fuel c <= 1 -> run V C g tbl opts buf (Some (cstring_cap g (length buf))) lexer term_f err_f rule_f fuel c = run V C g tbl opts buf None lexer term_f err_f rule_f fuel c /\ fst (fst (run V C g tbl opts buf (Some (cstring_cap g (length buf))) lexer term_f err_f rule_f fuel c)) <> Driver.Throw.
+Proof. exact @cstring_capacity_suffices_with_at_most_one_recovery. Qed.
+Print Assumptions C12_cstring_capacity_suffices_with_at_most_one_recovery.
+
+(* in general bytes + 1 + K suffices for runs with at most K error-symbol shifts *)
+Theorem C12_capacity_for_K_recoveries :
+  forall (V C : Type) (g : grammar) (tbl : LRGen.table) (opts : options) (buf : list nat) (lexer : bool -> spoint -> list nat -> list lex_event * option (nat * nat)) (term_f : nat -> nat -> nat -> spoint -> V) (err_f : spoint -> V) (rule_f : nat -> C -> list V -> C * V), empty_rules g = 0 -> DriverBasics.eof_err_not_shifted g tbl -> lexer_in_range lexer -> forall (K fuel : nat) (c : C), err_shifts V C g tbl opts buf lexer term_f err_f rule_f fuel c <= K -> run V C g tbl opts buf (Some (length buf + 1 + K)) lexer term_f err_f rule_f fuel c = run V C g tbl opts buf None lexer term_f err_f rule_f fuel c /\ fst (fst (run V C g tbl opts buf (Some (length buf + 1 + K)) lexer term_f err_f rule_f fuel c)) <> Driver.Throw.
+Proof. exact @capacity_suffices_with_at_most_K_recoveries. Qed.
+Print Assumptions C12_capacity_for_K_recoveries.
+
+(* tight: S -> error b on 'b' performs one error shift, needs 3 entries = the capacity, is accepted; with one entry less it throws *)
+Theorem C12_one_recovery_uses_the_spare_slot_exactly :
+  analyze rec1_raw = Some rec1_g /\ validate rec1_g (sts_of rec1_g) rec1_tbl = true /\ empty_rules rec1_g = 0 /\ DriverBasics.eof_err_not_shiftedb rec1_g rec1_tbl = true /\ no_shifterrb rec1_tbl = false /\ tree_err_shifts rec1_g rec1_tbl [1] 20 = 1 /\ tree_max_height rec1_g rec1_tbl [1] 20 = 3 /\ cstring_cap rec1_g (length [1]) = 3 /\ CapFormulaCex.res (tree_run_cap rec1_g rec1_tbl (Some (cstring_cap rec1_g (length [1]))) [1] 20) = Accept (Node 0 [Leaf 3; Leaf 1]) /\ CapFormulaCex.res (tree_run_cap rec1_g rec1_tbl (Some (cstring_cap rec1_g (length [1]) - 1)) [1] 20) = Driver.Throw.
+Proof. exact @one_recovery_accepted_capacity_exact. Qed.
+Print Assumptions C12_one_recovery_uses_the_spare_slot_exactly.
+
+(* and the D16 witness performs two error shifts and needs bytes + 3 *)
+Theorem C12_two_recoveries_exceed_it :
+  empty_rules rec_g = 0 /\ DriverBasics.eof_err_not_shiftedb rec_g rec_tbl = true /\ tree_err_shifts rec_g rec_tbl [0; 1] 20 = 2 /\ tree_max_height rec_g rec_tbl [0; 1] 20 = length [0; 1] + 1 + 2 /\ cstring_cap rec_g (length [0; 1]) = length [0; 1] + 1 + 1 /\ CapFormulaCex.res (tree_run_cap rec_g rec_tbl None [0; 1] 20) = Accept rec_tree /\ CapFormulaCex.res (tree_run_cap rec_g rec_tbl (Some (cstring_cap rec_g (length [0; 1]))) [0; 1] 20) = Driver.Throw /\ tree_err_shifts rec_g rec_tbl [0] 20 = 2 /\ tree_max_height rec_g rec_tbl [0] 20 = length [0] + 1 + 2 /\ CapFormulaCex.res (tree_run_cap rec_g rec_tbl None [0] 20) = Reject /\ CapFormulaCex.res (tree_run_cap rec_g rec_tbl (Some (cstring_cap rec_g (length [0]))) [0] 20) = Driver.Throw.
+Proof. exact @d16_two_error_shifts. Qed.
+Print Assumptions C12_two_recoveries_exceed_it.
 
 (* for every pattern the builder creates exactly the states the size analyser predicts and returns the predicted slice *)
 Theorem C12_dfa_size :
